@@ -30,7 +30,12 @@ TRANSLATORS = ['relay_skeleton', 'callback_skeleton']
 TRUSTED_BASE = [
     'translate/relay_skeleton.py (ast -> terms of Relay/Syntax.v; fail closed: an unrecognised statement that awaits, transfers control or '
     'mentions a name the relay depends on aborts the translation) and translate/callback_skeleton.py; the meaning given to a label in '
-    'Relay/Tie.v (which await a label completes; the drain-loop pass is atomic; on_start_run call+return are one label)',
+    'Relay/Tie.v (which await a label completes; the drain-loop pass is atomic; on_start_run call+return are one label); the five '
+    'child/pipe labels (Emit, Flush, ChildExit, Kill, KillMidWrite) are environment semantics shared with the model; statements the '
+    'translator drops are pinned by text (DROPPED_* in relay_skeleton.py), everything else is translated or refused',
+    'exceptions/cancellation: Relay/TieExn.v gives try/finally its real meaning for the MAIN task (every await, assert and the yield may '
+    'raise or be cancelled; C10_tie_finally_semantics); NOT covered: raising inside the monitor task (a raising plugin hook kills '
+    '_monitor: seen only as "await task raises"), GeneratorExit/aclose of the context managers',
     'harness/relay_runner.py (Recorder plugin, scenario runner) and harness/child.py (in-process reference run of the same script)',
     'modelled, not verified: multiprocessing.Queue (feeder threads, pipe FIFO, write lock), asyncio.to_thread, the OS scheduler, '
     'ProcessPoolExecutor; the correspondence is trace inclusion: every observed log must be a run of the model',
